@@ -373,9 +373,9 @@ def gen_case(sub, routines, scn_id, nmax=12):
     feedback = False
     cross = None
     if routine in TAKES_START + ('modularity_probtune_und_sign',) + ZERO:
-        sk = rnd.choice(('none', 'random', 'planted', 'perturbed', 'noncontig', 'feedback', 'cross', 'cross'))
+        sk = rnd.choice(('none', 'random', 'planted', 'perturbed', 'noncontig', 'zerobased', 'feedback', 'cross', 'cross'))
         if routine in ZERO:
-            sk = rnd.choice(('none', 'random', 'planted', 'noncontig')) if routine != 'modularity_und_sign' else rnd.choice(('random', 'planted', 'noncontig'))
+            sk = rnd.choice(('none', 'random', 'planted', 'noncontig', 'zerobased')) if routine != 'modularity_und_sign' else rnd.choice(('random', 'planted', 'noncontig', 'zerobased'))
         if sk == 'random':
             start = np.array([rnd.randint(1, max(2, n // 2)) for _ in range(n)])
         elif sk == 'planted':
@@ -386,6 +386,8 @@ def gen_case(sub, routines, scn_id, nmax=12):
                 start[x] = rnd.randint(1, k)
         elif sk == 'noncontig':
             start = lab * rnd.choice((3, 10)) + rnd.choice((0, 5, -2))
+        elif sk == 'zerobased':
+            start = lab - rnd.choice((1, 1, 2))  # labels 0..k-1 (np.unique style) or starting at -1
         elif sk == 'feedback':
             feedback = True
         elif sk == 'cross' and routine not in ZERO:
